@@ -108,7 +108,16 @@ func (h *Hub) Start() {
 // close all connections
 func (h *Hub) Shutdown() {
 	h.mdns.Shutdown()
+
+	// closing a connection removes it from the map: iterate over a copy taken under the lock
+	h.muxCon.Lock()
+	connections := make([]api.ShipConnectionInterface, 0, len(h.connections))
 	for _, c := range h.connections {
+		connections = append(connections, c)
+	}
+	h.muxCon.Unlock()
+
+	for _, c := range connections {
 		c.CloseConnection(false, 0, "")
 	}
 	if h.httpServer == nil {
